@@ -260,3 +260,27 @@ PROPS["C16"] = dict(
         "set on populations of 2 (even when both entries are evicted: exit 6 / out of memory), get on populations above 2, item sizes above 4 bytes", "static.rs cache_check / inner_file_handler (format!-based logging, file system)", "concurrent access",
     ],
 )
+
+PROPS["C17"] = dict(
+    level="model_checking",
+    steps=[
+        dict(kind="kani", crate="humphrey_auth", module="in_auth", tag="c17", jobs=8, harnesses=[
+            H("c17_session_clock", "complete", "Session::valid <=> now < expiry, expired <=> expiry < now, refresh sets expiry = now + lifetime, for every clock and expiry value"),
+            H("c17_get_uid_by_token", "bounded", "get_uid_by_token from an arbitrary well-formed 2-user database: Ok(uid) iff the token is that user's stored token and not expired; changes nothing", bound="2 users, 1-character stored tokens, symbolic expiries and clock", timeout=900),
+            H("c17_refresh_session", "bounded", "refresh_session succeeds only for a live token and extends exactly that session; an expired or unknown token is rejected and nothing changes", bound="2 users", timeout=900),
+            H("c17_create_session", "bounded", "create_session: unknown user => UserNotFound; live session => SessionAlreadyExists (at most one live session); else a fresh token with expiry now + lifetime is installed, authenticates its owner, other user untouched", bound="2 users", timeout=1200),
+            H("c17_invalidate_session", "bounded", "invalidate_session removes exactly the session holding the token; the token no longer authenticates; unknown token changes nothing", bound="2 users", timeout=900),
+            H("c17_invalidate_user_session", "bounded", "invalidate_user_session removes exactly that user's session", bound="2 users", timeout=900),
+            H("c17_remove_user", "bounded", "remove_user removes exactly that user, the other keeps uid and session", bound="2 users", timeout=900),
+        ]),
+    ],
+    kani_functions=[dict(file="humphrey-auth/src/lib.rs", item="AuthProvider::{get_uid_by_token, refresh_session, create_session, invalidate_session, invalidate_user_session, remove_user, exists}", engine="kani"),
+                    dict(file="humphrey-auth/src/session.rs", item="Session::{valid, expired, refresh}", engine="kani"),
+                    dict(file="humphrey-auth/src/database.rs", item="impl AuthDatabase for Vec<User>", engine="kani")],
+    assumptions=[
+        "Session::create_with_lifetime replaced by its contract: returns a token different from every token in existence (256 bits from OsRng never repeat: ASSUMED) with expiry = now + lifetime; its hex formatting is not covered",
+        "Argon2 password hashing/verification (User::create, User::verify) is not executed: the password half of the property is assumed, not decided",
+        "SystemTime::now replaced by a ghost clock; well-formedness = distinct uids and pairwise distinct stored tokens",
+    ],
+    not_covered=["password verification", "create_session_with_lifetime (same body as create_session with a caller-supplied lifetime)", "with_auth_route cookie handling (app.rs)", "databases with more than 2 users", "custom AuthDatabase implementations"],
+)
